@@ -374,6 +374,7 @@ def send_tx(
     amount_to_send = int(send_fraction * total_available)
     total_amount = 0
     txins = []
+    txin_amounts = []
     for utxo in sender_txoutset["unspents"]:
         amount = round(utxo["amount"] * 1e8)
         txid = bytes.fromhex(utxo["txid"])[::-1]
@@ -407,6 +408,7 @@ def send_tx(
                 # p2wpkh / p2wsh
                 sender_scriptsig = b""
         txins.append(txin(outpoint(txid, vout), sender_scriptsig))
+        txin_amounts.append(amount)
         total_amount += amount
         if total_amount >= amount_to_send:
             break
@@ -451,13 +453,15 @@ def send_tx(
             msgs = [
                 bip143.witness_message(
                     txins,
-                    utxo["vout"],
-                    int(utxo["amount"] * 1e8),
+                    txin_index,
+                    txin_amounts[txin_index],
                     scriptcode,
                     txouts,
+                    version=version,
+                    locktime=locktime,
                     sighash_flag=sighash_flag,
                 )
-                for utxo in sender_txoutset["unspents"]
+                for txin_index in range(len(txins))
             ]
             signatures = [
                 [
